@@ -181,7 +181,12 @@ def dict_to_path(data: dict, _type: Optional[str] = None, config: Optional[str] 
 
     debug(f"found: {path}")
 
-    return Path(path)
+    # pathlib collapses "//" and "/./": an empty or "." value would silently vanish, and give the path of another Sid
+    result = Path(path)
+    if result.as_posix() != path:
+        raise SpilException(f'Path "{path}" is not kept as is by pathlib ("{result.as_posix()}"): a value cannot be a folder name.')
+
+    return result
 
 
 if __name__ == "__main__":
